@@ -45,6 +45,9 @@ structure St where
       `LoadFromDB` built (`false`, index into `hidden`) -/
   cache : List (Bytes × Bool × Nat) := []
   hidden : List MTrie := []
+  /-- ghost: a trie was written through its handle while the cache of tries held that very object
+      (region of the known finding `stored-trie-mutated`) -/
+  stale : Bool := false
 
 def St.init : St := { hp := Heap.empty, db := [], ts := [MTrie.empty], persisted := [] }
 
@@ -96,8 +99,11 @@ def loadFromDB (H : Bytes → Bytes) (s : St) (root : Bytes) : Option (St × Nat
     let s1 := { s with hp := h.1, hidden := s.hidden ++ [lm] }
     some (softSet s1 (h.2.getD []) (false, idx), idx)
 
-/-- one op of the model: new state, observable, Go panic -/
-def stepModel (H : Bytes → Bytes) (s : St) : Op → St × String × Bool
+/-- handle `h` is an object the cache of tries holds -/
+def isCached (s : St) (h : Nat) : Bool := s.cache.any (fun e => e.2.1 && e.2.2 == h)
+
+/-- one op of the model (without the ghost flag `stale`): new state, observable, Go panic -/
+def stepModel0 (H : Bytes → Bytes) (s : St) : Op → St × String × Bool
   | .put h k v =>
     match s.ts[h]? with
     | none => (s, "bad-op", false)
@@ -251,6 +257,21 @@ def stepModel (H : Bytes → Bytes) (s : St) : Op → St × String × Bool
           | none => (s1, "err", false)
   | .bad => (s, "bad-op", false)
 
+/-- the handle an op writes through -/
+def Op.writes : Op → Option Nat
+  | .put h _ _ => some h
+  | .del h _ => some h
+  | .clr h _ => some h
+  | .putc h _ _ _ => some h
+  | _ => none
+
+/-- one op of the model: new state, observable, Go panic -/
+def stepModel (H : Bytes → Bytes) (s : St) (op : Op) : St × String × Bool :=
+  let x := stepModel0 H s op
+  match op.writes with
+  | some h => if isCached s h then ({ x.1 with stale := true }, x.2) else x
+  | none => x
+
 /-- what the property demands of `load` / `gfd` on the state `s` (`none`: no demand — the root of
     the handle was never persisted — the model's output stands) -/
 def specOut (H : Bytes → Bytes) (s : St) : Op → Option String
@@ -313,6 +334,13 @@ def runAliased (H : Bytes → Bytes) (s : St) : List Op → Bool
   | op :: r =>
     let x := stepModel H s op
     if x.2.2 then x.1.aliased else runAliased H x.1 r
+
+/-- some trie of the run was written through its handle while the cache of tries held it -/
+def runStale (H : Bytes → Bytes) (s : St) : List Op → Bool
+  | [] => s.stale
+  | op :: r =>
+    let x := stepModel H s op
+    if x.2.2 then x.1.stale else runStale H x.1 r
 
 /-! ### parsing -/
 
